@@ -129,7 +129,7 @@ func fitsInt(v uint64) bool { return v <= uint64(^uint(0)>>1) }
 func TestVerif_C14Header(t *testing.T) {
 	c := vStart(t, "C14", "TestVerif_C14Header")
 	defer c.Finish()
-	n := c.N(6000, 200000)
+	n := c.N(6000, 600000)
 	for idx := int64(0); idx < n; idx++ {
 		if !c.Mine(idx) {
 			continue
